@@ -29,14 +29,15 @@ ASSUMPTIONS = ["only function-node bodies take permits (gates and interrupt hand
 
 @st.composite
 def _level(draw, depth, counter, budget, in_map=False):
-    n_leaf = draw(st.integers(1, 5 if depth == 0 else 3))
+    n_leaf = draw(st.sampled_from([1, 1, 2, 3, 4, 5] if depth == 0 else [1, 1, 2, 3]))
     nodes = []
     for _ in range(n_leaf):
         i = counter[0]
         counter[0] += 1
-        style = draw(st.sampled_from(["async", "async", "async", "coro_def", "sync"]))
+        style = draw(st.sampled_from(["async", "async", "async", "coro_def", "sync", "agen"]))
         nodes.append({"k": "func", "name": f"f{i}", "params": ["x"], "defaults": {}, "outs": [f"r{i}"],
-                      **({"coro_def": True} if style == "coro_def" else {}), **({"force_sync": True} if style == "sync" else {})})
+                      **({"coro_def": True} if style == "coro_def" else {}), **({"force_sync": True} if style == "sync" else {}),
+                      **({"agen": True} if style == "agen" else {})})
     if depth < 3 and counter[0] < budget:
         for _ in range(draw(st.integers(0, 2))):
             if counter[0] >= budget:
@@ -52,7 +53,7 @@ def _level(draw, depth, counter, budget, in_map=False):
             # mapped inner graph: its leaves read the mapped item
             inner = [_retarget(n, "x", "item") for n in inner]
             nodes.append({"k": "graph", "name": f"m{i}", "graph": {"nodes": inner, "name": f"m{i}"},
-                          "map": {"params": ["item"], "mode": "zip", "error_handling": "raise", "before_renames": True}, "fan": draw(st.integers(1, 4))})
+                          "map": {"params": ["item"], "mode": "zip", "error_handling": "raise", "before_renames": True}, "fan": draw(st.integers(1, 6))})
     return nodes
 
 
@@ -69,8 +70,18 @@ def _case(draw, tier):
     counter = [0]
     nodes = draw(_level(0, counter, 14))
     K = 4 if tier == "quick" else 8
-    return {"nodes": nodes, "k": draw(st.integers(1, K)), "via_map": prob(draw, 0.3), "nitems": draw(st.integers(1, 4)),
-            "sched": draw(st.lists(st.integers(0, 9), max_size=80)), "adversarial": prob(draw, 0.8)}
+    k = draw(st.integers(1, K))
+    if prob(draw, 0.3):
+        # a limit just above the number of function nodes written in the program (map fan-out may still exceed it)
+        k = min(_leaves(nodes) + draw(st.integers(0, 1)), 8)
+    pre = draw(st.sampled_from([None, None, None, "empty_map", "zip_error"]))
+    return {"nodes": nodes, "k": k, "via_map": prob(draw, 0.3), "nitems": draw(st.integers(1, 6)),
+            "sched": draw(st.lists(st.integers(0, 9), max_size=80)), "adversarial": prob(draw, 0.8),
+            "pre": pre, "pre_k": draw(st.integers(1, 8))}
+
+
+def _leaves(nodes):
+    return sum(_leaves(n["graph"]["nodes"]) if n["k"] == "graph" else 1 for n in nodes)
 
 
 def strategy(tier):
@@ -158,7 +169,24 @@ def check_case(case, ev):
 
     ctx = Ctx(compact=True)
     g = make_graph(ctx, {"nodes": nodes}, "async")
-    out, sched = run_scheduled(ctx, g, mvals, case["sched"], adversarial=case["adversarial"], method=method, on_quiescent=on_q, max_concurrency=k, **kw)
+    pre = None
+    if case.get("pre"):
+        # an earlier bounded call awaited from the same task that ends without executing anything: an empty batch
+        # (returns []) or a zip-length mismatch (raises).  Whatever limit it installed must be gone afterwards.
+        labels.add("pre:" + case["pre"])
+        pre_vals = {**vals, "x": []} if case["pre"] == "empty_map" else {**vals, "x": [("p", 0)], "pre_extra": [1, 2]}
+        pre_over = "x" if case["pre"] == "empty_map" else ["x", "pre_extra"]
+        pre_state = {}
+
+        async def pre(runner):
+            try:
+                pre_state["result"] = await runner.map(g, pre_vals, map_over=pre_over, max_concurrency=case["pre_k"])
+            except Exception as e:  # noqa: BLE001 - a rejected batch is the point of the zip_error variant
+                pre_state["error"] = e
+
+    out, sched = run_scheduled(ctx, g, mvals, case["sched"], adversarial=case["adversarial"], method=method, on_quiescent=on_q, max_concurrency=k, pre=pre, **kw)
+    if case.get("pre") == "empty_map" and pre_state.get("result") != []:
+        raise Violation("c15.empty_map", f"map over an empty list gave {pre_state}")
     tag = f"k={k} width={width} depth={depth} {method}"
     if out.status == "deadlock":
         raise Violation("c15.deadlock", f"[{tag}] {out.error}; parked history tail: {[t[1] for t in sched.trace[-4:]]}", k=k)
